@@ -70,7 +70,12 @@ def run(ctx):
                 src_view = view.sgz_view(fi.path)
                 # one cropper instance writes all the crops of this source, in sequence (a tool that tiles a survey does
                 # exactly that): the k-th output must not depend on the crops written before it
-                shared = SgzCropper(fi.path) if k % 3 != 2 else None
+                # (the cropper's own reader options away from their defaults for some sources: data section loaded when
+                #  it opens, a one-chunk cache)
+                ckw = [{}, {'preload': True}, {}, {'chunk_cache_size': 1}, {'preload': True, 'chunk_cache_size': 2}][k % 5]
+                desc['cropper_options'] = ckw
+                ctx.stats['cropper_preload'] += int(bool(ckw.get('preload')))
+                shared = SgzCropper(fi.path, **ckw) if k % 3 != 2 else None
                 for kind, box in boxes(rng, fi.n, fi.lay.bs, ctx.n(6, 25)):
                     out = ctx.path('crop.sgz')
                     if os.path.exists(out):
@@ -81,7 +86,7 @@ def run(ctx):
                     ctx.stats['box_' + kind] += 1
                     try:
                         import contextlib
-                        with (contextlib.nullcontext(shared) if shared is not None else SgzCropper(fi.path)) as c:
+                        with (contextlib.nullcontext(shared) if shared is not None else SgzCropper(fi.path, **ckw)) as c:
                             # a cropper is a reader: header look-ups made on the object before (or between) crops must not
                             # change what it writes
                             pre = int(rng.integers(5))
